@@ -53,13 +53,15 @@ impl FromStr for Database {
                         .1,
                 );
             } else if line.starts_with("ua_os") {
-                ua_os_entries.append(
-                    &mut parse_ua_os(line)
-                        .map_err(|err| {
-                            DatabaseError::Parse(format!("fail to parse `ua_os`: {line}, {err}"))
-                        })?
-                        .1,
-                );
+                let (rest, mut entries) = parse_ua_os(line).map_err(|err| {
+                    DatabaseError::Parse(format!("fail to parse `ua_os`: {line}, {err}"))
+                })?;
+                if !rest.trim().is_empty() {
+                    return Err(DatabaseError::Parse(format!(
+                        "fail to parse `ua_os`: {line}, unexpected text: {rest}"
+                    )));
+                }
+                ua_os_entries.append(&mut entries);
             } else if line.starts_with('[') && line.ends_with(']') {
                 let (rest, module) = parse_module(line).map_err(|err| {
                     DatabaseError::Parse(format!("fail to parse `module`: {line}, {err}"))
@@ -277,10 +279,22 @@ fn parse_ua_os(input: &str) -> IResult<&str, Vec<(String, Option<String>)>> {
     Ok((input, result))
 }
 
+/// One `ua_os` rule: `Name` or `Name=[substring]` (the p0f form; names may contain spaces,
+/// as in `Mac OS X`), or the bare `name = value` form.
 fn parse_key_value(input: &str) -> IResult<&str, (&str, Option<&str>)> {
-    let (input, (name, _, value)) =
-        (alphanumeric1, space0, opt(preceded((space0, tag("="), space0), alphanumeric1)))
-            .parse(input)?;
+    let (input, name) = take_while(|c: char| c != ',' && c != '=').parse(input)?;
+    let name = name.trim();
+    if name.is_empty() {
+        return Err(nom::Err::Error(nom::error::Error::new(
+            input,
+            nom::error::ErrorKind::TakeWhile1,
+        )));
+    }
+    let (input, value) = opt(alt((
+        preceded(tag("=["), terminated(take_until("]"), char(']'))),
+        preceded((tag("="), space0), alphanumeric1),
+    )))
+    .parse(input)?;
 
     Ok((input, (name, value)))
 }
